@@ -46,12 +46,16 @@ META = {
          "copy / merge / __add__ results are proved fresh and disjoint from their sources.",
    note="Assumed: sortedcontainers / deepcopy / pyannote Segment models. Bounded only: __eq__, __ne__, __getitem__, iterunits."),
  "C16": dict(
-   technique="contract-based deductive verification of the pure interval function _remove_pivot_segment (loop invariant over all real points, "
-             "termination variant) and of the Continuum operations the sampler calls; the sampling loop itself by a bounded stand-in",
-   level="Proved for all inputs: the available set after removing a pivot is exactly the previous set minus the open zone "
-         "(pivot - dist, pivot + dist) - the fact pivot separation rests on - plus the contracts of copy_flush / add / add_annotator / "
-         "iter_annotator. Bounded (labelled): the wrapped-translation clauses of sample_from_continuum on seeded draws.",
-   note="Known finding (int_pivot mode): truncation can leave the available segment, see known_findings.json. np.random is exercised, not modelled."),
+   technique="contract-based deductive verification of ShuffleContinuumSampler.sample_from_continuum (three nested loops, ghost arrays of the "
+             "chosen ground-truth annotator and pivot per sampled annotator, every random draw unconstrained within its support) and of "
+             "the pure interval function _remove_pivot_segment (invariant over all real points); the weighted draw itself assumed",
+   level="Proved for every draw: the sample is a fresh, valid, non-empty continuum with exactly one annotator 'Sampled_annotation i' per "
+         "ground-truth annotator, each carrying exactly the units of one ground-truth annotator shifted by one pivot and wrapped by the "
+         "continuum's length when they would start beyond the upper bound (labels kept); float pivots drawn while a segment is available lie "
+         "within the bounds and pairwise at least avg-unit-length/2 apart; integer pivots are whole numbers. Bounded (labelled): the "
+         "assumed draw, equal counts, integer timestamps.",
+   note="Known finding (int_pivot mode): truncation can leave the available segment, see known_findings.json. Assumed: RNG support model, "
+        "_random_from_segments, avg_length_unit > 0, sortedcontainers."),
  "C03": dict(
    technique="contract-based deductive verification of the disorder kernel (ghost pair-fold, loop invariants, n(n-1)/2 exact) and of the "
              "disorder clauses of get_best_alignment / get_best_soft_alignment; remaining accessors by a bounded stand-in",
